@@ -54,6 +54,21 @@ fn finish(mut resp: IppRequestResponse) -> Sent {
     }
 }
 
+/// clients whose `uri()` no longer maps to the transport URL of the target they were given (drained into violations by the checks)
+pub static URI_NOTES: std::sync::Mutex<Vec<String>> = std::sync::Mutex::new(Vec::new());
+
+fn note_uri(kind: &str, given: &str, held: &http::Uri) {
+    let given_uri: http::Uri = given.parse().expect("uri");
+    let (a, b) = (ipp::client::verif_transport_url(&given_uri), ipp::client::verif_transport_url(held));
+    if a != b {
+        URI_NOTES.lock().unwrap().push(format!("{kind}::new({given:?}).uri() = {:?}: it maps to the transport URL {b:?}, the target given maps to {a:?}", held.to_string()));
+    }
+}
+
+pub fn take_uri_notes() -> Vec<String> {
+    std::mem::take(&mut *URI_NOTES.lock().unwrap())
+}
+
 impl ClientCfg {
     /// nothing configured: the plain constructors `IppClient::new` / `AsyncIppClient::new` apply
     pub fn is_default(&self) -> bool {
@@ -64,7 +79,7 @@ impl ClientCfg {
 pub fn blocking_client(uri: &str, cfg: &ClientCfg) -> IppClient {
     if cfg.is_default() {
         let c = IppClient::new(uri.parse().expect("uri"));
-        assert_eq!(c.uri().to_string(), uri.parse::<http::Uri>().unwrap().to_string(), "IppClient::uri() differs from the target given");
+        note_uri("IppClient", uri, c.uri());
         return c;
     }
     let mut b = IppClient::builder(uri.parse().expect("uri"));
@@ -109,7 +124,7 @@ pub fn blocking_client(uri: &str, cfg: &ClientCfg) -> IppClient {
 pub fn async_client(uri: &str, cfg: &ClientCfg) -> AsyncIppClient {
     if cfg.is_default() {
         let c = AsyncIppClient::new(uri.parse().expect("uri"));
-        assert_eq!(c.uri().to_string(), uri.parse::<http::Uri>().unwrap().to_string(), "AsyncIppClient::uri() differs from the target given");
+        note_uri("AsyncIppClient", uri, c.uri());
         return c;
     }
     let mut b = AsyncIppClient::builder(uri.parse().expect("uri"));
